@@ -631,6 +631,9 @@ class vDatetime(TimeBase):
     def __init__(self, dt, params={}):
         self.dt = dt
         self.params = Parameters(params)
+        tzid = tzid_from_dt(dt) if isinstance(dt, datetime) else None
+        if tzid and tzid != 'UTC':
+            self.params.update({'TZID': tzid})
 
     def to_ical(self):
         dt = self.dt
@@ -639,8 +642,6 @@ class vDatetime(TimeBase):
         s = f"{dt.year:04}{dt.month:02}{dt.day:02}T{dt.hour:02}{dt.minute:02}{dt.second:02}"
         if tzid == 'UTC':
             s += "Z"
-        elif tzid:
-            self.params.update({'TZID': tzid})
         return s.encode('utf-8')
 
     @staticmethod
